@@ -113,6 +113,12 @@ def _corpus():
                         [('break',)], None),
                        ('print', num(99))]),
                      ('println', ('call', 'fact', [num(4)]))], pop))
+    # a routine defined inside the body of a matrix block, called after it
+    out.append(([('setreg', 'hue', num(10)),
+                 ('action', 'set', [('matrix_block', ('str', 'Candle'),
+                                     [('define', 'f', [], [('print', num(7))]),
+                                      ('stage', (num(0), None), None, False)])]),
+                 ('call', 'f', []), ('print', num(3))], pop))
     # every edge between unit modes with a duration and a delay pending: the commands and waits
     # before and after the switch carry the durations the source says
     import itertools
